@@ -1,5 +1,7 @@
 import Driver.Util
 import CirqVerif.Model.C07
+import CirqVerif.Model.C07Timesteps
+import Driver.C05
 /-! line-protocol handler for C07 -/
 namespace Driver.C07
 open Lean Driver CirqVerif.C07
@@ -23,6 +25,11 @@ def handle (op : String) (j : Json) : R Json := do
     return Json.mkObj [
       ("ops", jList (fun (o : LOp) => Json.mkObj [("id", jNat o.id), ("qubits", jList jNat o.qubits)]) r.1),
       ("l2p", jList jNat r.2.l2p), ("p2l", jList jNat r.2.p2l)]
+  | "timesteps" =>
+    let ops ← listF Driver.C05.pOp j "ops"
+    let s := runTS ops
+    let ids (l : List (List CirqVerif.C05.Op)) : Json := jList (fun (m : List CirqVerif.C05.Op) => jList jNat (m.map (·.id))) l
+    return Json.mkObj [("two", ids s.two), ("single", ids s.single)]
   | _ => throw s!"unknown op {op}"
 
 end Driver.C07
